@@ -53,6 +53,8 @@ type Rec struct {
 	Src  string
 	Dst  string
 	Data []byte
+	Seq0 uint64 // for send/werr after a stalled write: event number and time at which the call began ("wstart" record)
+	T0   time.Duration
 	Full []byte // for read: the whole datagram, when the caller's buffer was too small for it (Data is what it got)
 	Ref  uint64 // for arrive/read: Seq of the send
 	Sock string // label of the socket concerned
@@ -544,20 +546,25 @@ func (c *UDPConn) send(b []byte, dst *net.UDPAddr) (int, error) {
 	src := c.srcAddr()
 	data := append([]byte(nil), b...)
 	l := f.link(src.IP.String(), dst.IP.String())
+	var seq0 uint64
+	var t0 time.Duration
 	if l.SlowWritePermille > 0 && l.SlowWriteMax > 0 && f.s.CurrentID() >= 0 && f.s.Dec.Chance("net.slowwrite", l.SlowWritePermille) {
 		d := time.Duration(1+f.s.Dec.Choose("net.slowwriteamt", 16)) * l.SlowWriteMax / 16
 		f.fired("slow-write")
 		if l.SlowWriteSlack {
 			f.s.AddSlack(d)
 		}
+		// the call begins now, the datagram leaves (or the call fails) when the stall is over
+		r0 := f.rec(Rec{Kind: "wstart", Src: src.String(), Dst: dst.String(), Data: data, Sock: c.Label})
+		seq0, t0 = r0.Seq, r0.T
 		f.s.SleepFor(d)
 	}
 	if l.WriteErrPermille > 0 && f.s.Dec.Chance("net.werr", l.WriteErrPermille) {
 		f.fired("write-error")
-		f.rec(Rec{Kind: "werr", Src: src.String(), Dst: dst.String(), Data: data, Sock: c.Label, Err: "no buffer space available"})
+		f.rec(Rec{Kind: "werr", Src: src.String(), Dst: dst.String(), Data: data, Sock: c.Label, Err: "no buffer space available", Seq0: seq0, T0: t0})
 		return 0, opErr("write", c, errors.New("no buffer space available"))
 	}
-	r := f.rec(Rec{Kind: "send", Src: src.String(), Dst: dst.String(), Data: data, Sock: c.Label})
+	r := f.rec(Rec{Kind: "send", Src: src.String(), Dst: dst.String(), Data: data, Sock: c.Label, Seq0: seq0, T0: t0})
 	ref := r.Seq
 	if f.OnSend != nil {
 		f.OnSend(r)
